@@ -35,6 +35,7 @@ func init() {
 			"Injector A: the k-th host call raises (string via RaiseError / table / nil / boolean / Go panic / Go run-time fault), k enumerated over every host call of the fault-free run; whole trace compared with the reference interpreter given the same fault. " +
 			"Injector B: a context whose Done() is closed on exactly the k-th poll = one-shot fault at instruction dispatch k, k enumerated over every dispatch between the two snap() of the outer protected call (capped per program, cap in evidence); oracle: events of the struck region are a prefix of its fault-free events, " +
 			"everything outside is identical to the fault-free run, the cancel error is delivered exactly once, xpcall's handler ran exactly once before the continuation, hook snapshot after == before (call depth, registry top, frame, Panic mode, hasErrorFunc, open upvalues). " +
+			"deliberate errors carry messages with percent signs (%d %s %%) and include a fault in the first instruction of a multi-line function; the post section also drives coroutines through the Go API (NewThread + Resume in a host function that checks its own stack height) with failing and succeeding bodies; " +
 			"A case = (program, injector, k); non-trivial = the fault struck inside a protected region and the post section ran; distinct by (source hash, injector, k)",
 		Assumptions: []string{
 			"injector A: the reference interpreter implements pcall/xpcall/error semantics of the manual",
